@@ -1,5 +1,6 @@
 import AgdbRaft.Props.C30
 import AgdbRaft.Props.C30n3r
+import AgdbRaft.Props.C30pp
 #print axioms Raft.exploreSetP_sound
 #print axioms Raft.exploreSet_sound
 #print axioms Raft.reachesWithinP_seq
@@ -8,3 +9,4 @@ import AgdbRaft.Props.C30n3r
 #print axioms Raft.C30_n3_election
 #print axioms Raft.C30_n3_replication
 #print axioms Raft.C30_n3
+#print axioms Raft.C30_post_partition
